@@ -57,32 +57,35 @@ func (c *Client) Establish(ctx context.Context) error {
 
 // Close stops the listener and finishes any established session with the server.
 func (c *Client) Close() error {
-	c.stopListener()
-
-	if c.channel == nil {
-		return nil
-	}
-
+	// No session is (re)established while the client is being closed
 	c.lock <- struct{}{}
 	defer func() {
 		<-c.lock
 	}()
 
-	if c.channel == nil {
-		return nil
-	}
+	c.mu.RLock()
+	channel := c.channel
+	c.mu.RUnlock()
 
-	if c.channel.Established() {
-		// Try to close the session gracefully
-		ctx, cancelFunc := context.WithTimeout(context.Background(), time.Second*5)
-		defer cancelFunc()
-		_, err := c.channel.FinishSession(ctx)
+	var err error
+	if channel != nil {
+		if channel.Established() {
+			// Try to close the session gracefully. The listener is still consuming the inbound
+			// envelopes, so that the server's answer is not stuck behind unread ones.
+			ctx, cancelFunc := context.WithTimeout(context.Background(), time.Second*5)
+			_, err = channel.FinishSession(ctx)
+			cancelFunc()
+			// The channel is released in any case, also when the session could not be finished
+			_ = channel.Close()
+		} else {
+			err = channel.Close()
+		}
+		c.mu.Lock()
 		c.channel = nil
-		return err
+		c.mu.Unlock()
 	}
 
-	err := c.channel.Close()
-	c.channel = nil
+	c.stopListener()
 	return err
 }
 
